@@ -61,15 +61,16 @@ def outcome(res):
     return ("err", json.dumps(res)[:200])
 
 
-def run_sessions(sessions, tag, jobs=None, watchdog=300, timeout=3000):
-    """sessions: list of op lists. Returns the list of result lists (same order). A panic does not stop a session."""
+def run_sessions(sessions, tag, jobs=None, watchdog=300, timeout=3000, sub="sql-run"):
+    """sessions: list of op lists. Returns the list of result lists (same order). A panic does not stop a session.
+    sub: harness subcommand (sql-run, or join-obs which also understands the op {"k":"hits"})."""
     cases = []
     for i, ops in enumerate(sessions):
         cases.append({"id": i, "ops": [dict(o, stop_on_panic=False) for o in ops]})
     inp = "%s/%s_in.ndjson" % (vlib.scratch(), tag)
     outp = "%s/%s_out.ndjson" % (vlib.scratch(), tag)
     vlib.write_ndjson(inp, cases)
-    vlib.run_vh(["sql-run", "--in", inp, "--out", outp, "--jobs", jobs or vlib.NCPU, "--watchdog", watchdog], timeout=timeout)
+    vlib.run_vh([sub, "--in", inp, "--out", outp, "--jobs", jobs or vlib.NCPU, "--watchdog", watchdog], timeout=timeout)
     out = [None] * len(sessions)
     for r in vlib.read_ndjson(outp):
         res = r["res"]
